@@ -115,24 +115,30 @@ theorem C16_headline_idn_constructor (e : Env) (sc h rp rf : Str)
 
 /-- … `build(host=h)` and `with_host(h)` with a non-ASCII `h` (validation ON): NOTHING is assumed about the package
     except — for the last conjunct — that its answer is not empty: success means the IDNA answer `r` passed the
-    reg-name screen, and a non-empty `r` is then a fixed point of `_encode_host`, with and without validation. -/
+    reg-name screen, and a non-empty `r` is then a fixed point of `_encode_host`, with and without validation.
+    Since fix 3fbf5b4 there is a second way to succeed: the answer `x` holds a ':' and is an IP literal with a screened
+    zone; the result is then its canonical text (`ipRes x`: the compressed bracketed form for IPv6). -/
 theorem C16_headline_idn_validated (e : Env) (h : Str)
     (hna : isAscii h = false)                       -- the IDN case
     (hip : parseIP (partition 37 h).1 = none) :     -- guard: no IP literal in front of a '%'
     (∀ (a : BuildArgs) (u : Url), a.encoded = false → a.authority = [] → a.host = h → build e a = .ok u →
-      ∃ r, encodeHost e.o h true = .ok r ∧ idnaEncode e.o h = .ok r ∧ notRegName r = false ∧
-        (r ≠ [] → ∀ v, encodeHost e.o r v = .ok r)) ∧
+      ∃ r, encodeHost e.o h true = .ok r ∧
+        ((idnaEncode e.o h = .ok r ∧ notRegName r = false ∧ (r ≠ [] → ∀ v, encodeHost e.o r v = .ok r)) ∨
+         (∃ x, idnaEncode e.o h = .ok x ∧ mem 58 x = true ∧ ipRes x = some r ∧ zoneBad x true = false))) ∧
     (∀ (u u' : Url), withHost e u h = .ok u' →
-      ∃ r, encodeHost e.o h true = .ok r ∧ idnaEncode e.o h = .ok r ∧ notRegName r = false ∧
-        (r ≠ [] → ∀ v, encodeHost e.o r v = .ok r)) := by
+      ∃ r, encodeHost e.o h true = .ok r ∧
+        ((idnaEncode e.o h = .ok r ∧ notRegName r = false ∧ (r ≠ [] → ∀ v, encodeHost e.o r v = .ok r)) ∨
+         (∃ x, idnaEncode e.o h = .ok x ∧ mem 58 x = true ∧ ipRes x = some r ∧ zoneBad x true = false))) := by
   constructor
   · intro a u henc hauth hh hb
     subst hh
-    obtain ⟨r, h1, h2, h3, h4⟩ := C16_idn_build e a u henc hauth hna hip hb
-    exact ⟨r, h1, h2, h3, fun hne => (h4 hne).2.2⟩
+    obtain ⟨r, h1, ⟨h2, h3, h4⟩ | hx⟩ := C16_idn_build e a u henc hauth hna hip hb
+    · exact ⟨r, h1, Or.inl ⟨h2, h3, fun hne => (h4 hne).2.2⟩⟩
+    · exact ⟨r, h1, Or.inr hx⟩
   · intro u u' hw
-    obtain ⟨r, h1, h2, h3, h4⟩ := C16_idn_withHost e u u' h hna hip hw
-    exact ⟨r, h1, h2, h3, fun hne => (h4 hne).2.2⟩
+    obtain ⟨r, h1, ⟨h2, h3, h4⟩ | hx⟩ := C16_idn_withHost e u u' h hna hip hw
+    · exact ⟨r, h1, Or.inl ⟨h2, h3, fun hne => (h4 hne).2.2⟩⟩
+    · exact ⟨r, h1, Or.inr hx⟩
 
 /-- "encoding is idempotent", IDN case — `C16_headline_idempotent` without its `isAscii h` hypothesis (closes the
     idempotence part of C16Headline GAPS 1 relative to `IdnaSaneAt`): the stored answer is ASCII, so encoding it again
@@ -452,7 +458,8 @@ theorem C16_headline_subcomponents_bracket_ipv6 (e : Env) (u : Url) (h : Str)
     (1) `[` compressed IPv6 text `%zone` `]` when `h0` (before '%') is an IPv6 literal,
     (2) `h0` itself when it is an IPv4 literal (zone kept),
     (3) the ASCII-lower-cased `h0` when `h0` is ASCII, WHATEVER its characters (no reg-name screen),
-    (4) the answer of the IDNA encoder otherwise (no reg-name screen);
+    (4) the answer of the IDNA encoder otherwise (no reg-name screen) — unless
+    (5) (since fix 3fbf5b4) that answer `x` holds a ':': then `x` goes through `_encode_host` again, i.e. (1)–(3) for `x`;
     the stored netloc is `[userinfo@]` + `h1` (re-bracketed if the input host was bracketed) + `[:port]`, the port being
     dropped when it is the default of the lowered scheme. -/
 theorem C16_headline_build_authority_host (e : Env) (a : BuildArgs) (u : Url) (hb : build e a = .ok u)
@@ -467,7 +474,10 @@ theorem C16_headline_build_authority_host (e : Env) (a : BuildArgs) (u : Url) (h
         V6More.portStr (C16_keptPort sc np.port) ∧
       (∀ h0, np.host = some h0 →
         (∃ h8, parseIP (partition 37 h0).1 = some (.v6 h8) ∧ h1 = [91] ++ (ipv6ToStr h8 ++ zonePart h0) ++ [93]) ∨
-        h1 = h0 ∨ (isAscii h0 = true ∧ h1 = lower h0) ∨ (isAscii h0 = false ∧ idnaEncode e.o h0 = .ok h1)) :=
+        h1 = h0 ∨ (isAscii h0 = true ∧ h1 = lower h0) ∨ (isAscii h0 = false ∧ idnaEncode e.o h0 = .ok h1) ∨
+        (isAscii h0 = false ∧ ∃ x, idnaEncode e.o h0 = .ok x ∧ mem 58 x = true ∧
+          ((∃ h8, parseIP (partition 37 x).1 = some (.v6 h8) ∧ h1 = [91] ++ (ipv6ToStr h8 ++ zonePart x) ++ [93]) ∨
+            h1 = x ∨ (isAscii x = true ∧ h1 = lower x)))) :=
   C16_build_authority_host e a u hb henc hauth
 
 /-- "build() … reject hosts containing characters outside the RFC 3986 reg-name grammar" is FALSE for
